@@ -4,22 +4,6 @@ import Model.FrameWrite
 namespace C03
 open FrameSpec FrameWrite
 
-def bstmtVals : BStmt → List NVal
-  | BStmt.query _ vals => vals
-  | BStmt.prepared _ vals => vals
-
-/-- the requests gocql's builders refuse to build: custom payload below v4 (panic in
-    writeCustomPayload), keyspace below v5 (panic in writeQueryParams / writePrepareFrame; the v1
-    paths never look at it), a named value in a BATCH from v3 (error, CASSANDRA-10246) -/
-def Rejectable (v : Nat) : Req → Bool
-  | Req.query _ p pl => (!pl.isEmpty && decide (v < 4)) || (decide (v ≠ 1) && p.keyspace.isSome && decide (v < 5))
-  | Req.execute _ p pl => (!pl.isEmpty && decide (v < 4)) || (decide (v > 1) && p.keyspace.isSome && decide (v < 5))
-  | Req.prepare _ ks pl => (!pl.isEmpty && decide (v < 4)) || (ks.isSome && decide (v < 5))
-  | Req.batch _ stmts _ _ _ _ pl =>
-      (!pl.isEmpty && decide (v < 4)) ||
-      (decide (v > 2) && stmts.any (fun s => (bstmtVals s).any (fun x => x.name.isSome)))
-  | _ => false
-
 theorem isEmpty_iff_len {α : Type} (l : List α) : (!l.isEmpty) = decide (l.length > 0) := by
   cases l <;> simp
 
